@@ -237,6 +237,10 @@ def supply_modes(ctx, table, rnd, n):
 
 
 def shard_main(ctx):
+    if ctx.shard == 1 % ctx.nshards and ctx.tier == "thorough":
+        from ..core import repo_tests_under_monitors
+
+        repo_tests_under_monitors(ctx, "C20")
     table = Table(ctx)
     if ctx.shard == 0:
         cross_process(ctx, table)
